@@ -35,6 +35,20 @@ pub fn run(ctx: &Ctx) -> CheckResult {
             spaces.push(Space { cfg: Cfg::pm(Kind::Ce, n, m), alphabet: with_reset(bar_ops.clone()), depth: if shallow { db - 1 } else { db }, label: "bars" });
         }
     }
+    // the same in a tiny price unit (2^-60): an absolute epsilon / "converged" shortcut shows only here
+    let tiny_s = with_reset(s_ops(&S_TINY));
+    let tiny_b = with_reset(b_ops(&scale_bars(&b_grid(), TINY)));
+    spaces.push(Space { cfg: Cfg::p0(Kind::Tr), alphabet: tiny_s.clone(), depth: d, label: "tiny scalar" });
+    spaces.push(Space { cfg: Cfg::p0(Kind::Tr), alphabet: tiny_b.clone(), depth: db - 1, label: "tiny bars" });
+    for &n in &[1usize, 2, 3, 5, 14] {
+        spaces.push(Space { cfg: Cfg::p1(Kind::Ema, n), alphabet: tiny_s.clone(), depth: d + 1, label: "tiny scalar" });
+        spaces.push(Space { cfg: Cfg::p1(Kind::Atr, n), alphabet: tiny_s.clone(), depth: d, label: "tiny scalar" });
+        spaces.push(Space { cfg: Cfg::p1(Kind::Atr, n), alphabet: tiny_b.clone(), depth: db - 1, label: "tiny bars" });
+        spaces.push(Space { cfg: Cfg::pm(Kind::Kc, n, 2.0), alphabet: tiny_s.clone(), depth: d, label: "tiny scalar" });
+        spaces.push(Space { cfg: Cfg::pm(Kind::Kc, n, 2.0), alphabet: tiny_b.clone(), depth: db - 1, label: "tiny bars" });
+        spaces.push(Space { cfg: Cfg::pm(Kind::Ce, n, 3.0), alphabet: tiny_b.clone(), depth: db - 1, label: "tiny bars" });
+        spaces.push(Space { cfg: Cfg::p3(Kind::Macd, n, n + 2, 2), alphabet: tiny_s.clone(), depth: d, label: "tiny scalar" });
+    }
     // MACD triples over {1,2,3,7}^3 (equal periods and fast > slow included)
     let tri = [1usize, 2, 3, 7];
     for &a in &tri {
@@ -107,7 +121,7 @@ pub fn run(ctx: &Ctx) -> CheckResult {
     }
 
     res.rule = "case = (configuration, operation history) replayed on a fresh real instance; output of the last op compared with the documented recursion/formula evaluated from scratch over the whole history since reset in double-double; non-trivial = history of at least 2 inputs since reset".into();
-    res.bounds = format!("seq(S_int+{{7.7,1e6}}+reset, {d}) scalar paths and seq(B_grid+reset, {db}) bar paths for periods {singles:?}, multipliers {mults:?} (side multipliers 1-2 levels shallower), MACD triples over {{1,2,3,7}}^3 at depth {} plus (12,26,9),(3,1024,2); default streams of {lens} steps with <=1 deviation for periods up to 1024", d - 2);
+    res.bounds = format!("seq(S_int+{{7.7,1e6}}+reset, {d}) scalar paths and seq(B_grid+reset, {db}) bar paths for periods {singles:?}, multipliers {mults:?} (side multipliers 1-2 levels shallower), the positive alphabets in a 2^-60 price unit for periods {{1,2,3,5,14}}; MACD triples over {{1,2,3,7}}^3 at depth {} plus (12,26,9),(3,1024,2); default streams of {lens} steps with <=1 deviation for periods up to 1024", d - 2);
     res.assumptions = vec![
         "EMA state space is unbounded: depth-bounded, plus fixed long default streams".into(),
         "bar alphabets contain valid bars only (low<=close<=high): the statement's formulas are the documented ones for real bars".into(),
